@@ -35,3 +35,19 @@ def replay_reply_parse(doc):
             return True, 'Reply().parse(%r): code=%r but the line %s a "NNN<space>" final line' % (data, r.code, 'is' if exp else 'is not')
         if exp and r.code != int(data[:3]): return True, 'Reply().parse(%r): code=%r' % (data, r.code)
     return False, 'reply assembly agrees with the reference on %d lines' % len(cands)
+
+
+def replay_hostile_reply(doc):
+    """C09: whatever the server writes on the control connection, read_reply returns a reply or raises a per-URL error kind"""
+    from replay.httpstream import ReaderConnection, _classify
+    from wpull.protocol.ftp.stream import ControlStream
+    big = b'x' * 70000
+    cases = [('two code lines separated by a bare CR', b'200 a\r200 b\r\n'), ('reply line longer than 64 KiB', b'200 ' + big + b'\r\n'), ('no code', b'hello\r\n'),
+             ('code then garbage', b'2x0 a\r\n200 b\r\n'), ('NUL and high bytes', b'200 \x00\xff\xfe\r\n'), ('multi-line', b'200-a\r\n b\r\n200 c\r\n'), ('empty', b''),
+             ('form feed / VT / FS separators inside', b'200-a\x0c200 b\x0b200 c\x1c200 d\r\n'), ('code lines glued by CR', b'220-x\r230 y\r\n')]
+    bad = []
+    for what, wire in cases:
+        r = _classify(lambda: ControlStream(ReaderConnection(wire)).read_reply())
+        if r: bad.append('%s (%r...) -> %s escapes (not a per-URL error kind)' % (what, wire[:24], r))
+    if bad: return True, '; '.join(bad)
+    return False, '%d hostile control-connection streams end in a reply or a per-URL error kind' % len(cases)
